@@ -2,11 +2,11 @@
 # verify a seeded change: demo passes on clean /repo HEAD, fails with patch.  usage: seeded_verify.sh <dir with patch.diff demo.cpp>
 D=$(realpath $1); WT=/work/seeded-verify-$$
 git -C /repo worktree add -q --detach $WT HEAD || exit 2
-CMD="g++ -std=c++17 -O1 -I. demo.cpp -o demo"
+if grep -q "^// mpicxx" $D/demo.cpp; then CMD="mpicxx -std=c++17 -O1 -I. demo.cpp -o demo"; RUN="mpirun --allow-run-as-root --oversubscribe -np 3 ./demo"; else CMD="g++ -std=c++17 -O1 -I. demo.cpp -o demo"; RUN="./demo"; fi
 build() { (cd $WT && cp $D/demo.cpp . && eval "$CMD" 2>&1 | tail -3); }
-build; (cd $WT && ./demo > /tmp/sv_clean_$$.txt 2>&1); RC1=$?
+build; (cd $WT && timeout 900 $RUN > /tmp/sv_clean_$$.txt 2>&1); RC1=$?
 if ! git -C $WT apply $D/patch.diff 2>/tmp/sv_apply_$$.txt; then echo "PATCH-DOES-NOT-APPLY: $(cat /tmp/sv_apply_$$.txt | head -2)"; git -C /repo worktree remove --force $WT; exit 3; fi
-build; (cd $WT && timeout 600 ./demo > /tmp/sv_patched_$$.txt 2>&1); RC2=$?
+build; (cd $WT && timeout 900 $RUN > /tmp/sv_patched_$$.txt 2>&1); RC2=$?
 echo "clean rc=$RC1 ($(tail -1 /tmp/sv_clean_$$.txt | cut -c1-80)) patched rc=$RC2 ($(tail -1 /tmp/sv_patched_$$.txt | cut -c1-80))"
 git -C /repo worktree remove --force $WT
 [ $RC1 -eq 0 ] && [ $RC2 -ne 0 ]
